@@ -65,12 +65,13 @@ BOUNDARIES = [256, 256, 512, 65536]
 def case_strategy(thorough=False):
     bulk = st.none() | st.tuples(st.integers(0, 3 if thorough else 2), st.integers(-6, 12)).map(list)
     return st.builds(
-        lambda a, p, r, init, ops, lat, bulk: {'activation': a, 'prefetch': p, 'reorg_limit': r,
-                                               'init': init, 'ops': ops, 'lat': lat, 'bulk': bulk},
+        lambda a, p, r, init, ops, lat, bulk, chunk: {
+            'activation': a, 'prefetch': p, 'reorg_limit': r, 'init': init, 'ops': ops, 'lat': lat,
+            'bulk': bulk, 'chunk': chunk},
         st.integers(0, 9), st.integers(1, 8), st.sampled_from([1, 2, 3, 4, 6]),
         st.lists(scenario.block_desc(max_txs=4), min_size=6, max_size=14),
         st.lists(OP, min_size=1, max_size=12),
-        st.lists(st.integers(0, 2), max_size=40), bulk)
+        st.lists(st.integers(0, 2), max_size=40), bulk, scenario.CHUNKS)
 
 
 CASE = case_strategy()
@@ -259,7 +260,18 @@ class Machine:
 
 
 def run_case(scratch, case):
+    from pbt import node as node_mod
+    node_mod.CHUNK_OVERRIDE = case.get('chunk')
+    try:
+        return _run_case(scratch, case)
+    finally:
+        node_mod.CHUNK_OVERRIDE = None
+
+
+def _run_case(scratch, case):
     m = Machine(scratch, case)
+    if case.get('chunk'):
+        m.info['classes'].add('small_chunks')
     try:
         run_sim(m.run, chooser=m.chooser, vt_deadline=20000)
     except Violation as v:
